@@ -952,6 +952,7 @@ def obligations_in_context(facts, body, keep=None):
 
 
 CANON_V5 = os.environ.get('VERIF_PO_CANON', 'new') not in ('old', 'v2', 'v3', 'v4')
+CANON_V6 = os.environ.get('VERIF_PO_CANON', 'new') not in ('old', 'v2', 'v3', 'v4', 'v5')
 
 
 class KeyBody(object):
@@ -1019,7 +1020,14 @@ def _keyed(facts, b, obs):
     # variables of the enclosing function get their own number space before the per-key alpha renaming
     vocab = {k: re.sub(r'\bv(\d+)\b', r'v7\1', v) for k, v in vocab.items()}
     for o in obs:
-        o['ops'] = alpha(_subst_upvars(o.get('ops_raw', o['ops']), vocab))
+        txt = o.get('ops_raw', o['ops'])
+        if CANON_V6:
+            # the closure's own parameters (the element handed in by map / fold / for_each) are loop variables of the
+            # enclosing function once the closure is written as a loop: name them as variables (before the captured
+            # variables are replaced by the enclosing function's expressions, which may mention its parameters)
+            txt = re.sub(r'\barg([2-9])\b', r'v8\1', txt)
+        txt = _subst_upvars(txt, vocab)
+        o['ops'] = alpha(txt)
     return KeyBody(b, root)
 
 
